@@ -1,16 +1,18 @@
 ------------------------------- MODULE NamesMC -------------------------------
 EXTENDS Names
-CONSTANTS MaxDepth
+CONSTANTS MaxDepth,
+          AdmitLevels      \* the wildcard declaration levels combined with an admitting listener (quick tier: fewer)
 \* hist: the operations so far (mode A replays the whole history on a fresh class and instance)
 VARIABLES cfg, name, st, last, depth, hist
 vars == <<cfg, name, st, last, depth, hist>>
 Levels == {"absent", "base", "sub"}
-Cfgs == [base : {"plain", "strict", "private"}, wf : Levels, wfo : Levels, wu : Levels, explicit : BOOLEAN]
+Cfgs == [base : {"plain", "strict", "private"}, wf : Levels, wfo : Levels, wu : Levels, explicit : BOOLEAN, admit : {FALSE}]
+        \cup [base : {"plain", "strict", "private"}, wf : AdmitLevels, wfo : AdmitLevels, wu : AdmitLevels, explicit : BOOLEAN, admit : {TRUE}]
 NamePool == {NFoo, <<"f", "o">>, <<"f">>, <<"f", "o", "x">>, <<"x">>, <<"_", "x">>, <<"_", "f", "o">>,
              <<"_", "_", "x", "_", "_">>, <<"_", "_", "x">>, <<"r">>, <<"k">>, <<"e">>}
 AddPolicies == {"int", "str", "readonly", "event", "property"}
 Init == /\ cfg \in Cfgs /\ name \in NamePool
-        /\ st = [itrait |-> "none", stored |-> "unset", cached |-> FALSE]
+        /\ st = St0
         /\ last = [op |-> "init"] /\ depth = 0 /\ hist = <<>>
 Do(op, arg) ==
   LET r == Apply(op, cfg, st, name, arg) IN
@@ -20,20 +22,23 @@ Do(op, arg) ==
   /\ depth' = depth + 1 /\ UNCHANGED <<cfg, name>>
 Next == depth < MaxDepth /\
         (Do("get", "none") \/ Do("del", "none") \/ Do("remove_trait", "none")
-         \/ (\E v \in {"i5", "s"} : Do("set", v)) \/ (\E p \in AddPolicies : Do("add_trait", p)))
+         \/ (\E v \in {"i5", "s"} : Do("set", v)) \/ (\E p \in AddPolicies : Do("add_trait", p))
+         \/ (\E w \in {"f", "fo"} : ~Declared(cfg, PrefixOf(w)) /\ PrefixOf(w) \notin st.dyn /\ Do("add_wild", w)))
 Spec == Init /\ [][Next]_vars
 
 \* ---- C13 as TLC decides it on the specification
-Undeclared == st.itrait = "none" /\ ~(cfg.explicit /\ ExplicitPolicy(name) # "none") /\ ~IsDunder(name)
-              /\ LongestPrefix(cfg, name) = <<>>
-StrictRejects == (last.op # "init" /\ cfg.base # "plain" /\ last.pre.itrait = "none" /\ last.pre.stored = "unset"
-                  /\ ~(cfg.explicit /\ ExplicitPolicy(name) # "none") /\ ~IsDunder(name) /\ LongestPrefix(cfg, name) = <<>>)
+StrictRejects == (last.op # "init" /\ cfg.base # "plain" /\ ~cfg.admit /\ last.pre.itrait = "none" /\ last.pre.stored = "unset"
+                  /\ last.pre.cpol = "none" /\ ~(cfg.explicit /\ ExplicitPolicy(name) # "none") /\ ~IsDunder(name)
+                  /\ LongestPrefix(cfg, last.pre.dyn, name) = <<>>)
                  => (last.op = "get" => last.res = "AttributeError") /\ (last.op = "set" => last.res = "TraitError")
-ConstantNeverChanges == Governing(cfg, st.itrait, name) = "constant" /\ last.op = "set" => last.res = "TraitError"
-EventWriteOnly == last.op = "get" /\ Governing(cfg, last.pre.itrait, name) = "event" /\ last.pre.stored = "unset"
+ConstantNeverChanges == Governing(cfg, st, name) = "constant" /\ last.op = "set" => last.res = "TraitError"
+EventWriteOnly == last.op = "get" /\ Governing(cfg, Admitted(cfg, last.pre, name), name) = "event" /\ last.pre.stored = "unset"
                   => last.res = "AttributeError"
-ReadOnlyOnce == last.op = "set" /\ Governing(cfg, last.pre.itrait, name) = "readonly" /\ last.pre.stored \in {"i5", "s"}
+ReadOnlyOnce == last.op = "set" /\ Governing(cfg, Admitted(cfg, last.pre, name), name) = "readonly" /\ last.pre.stored \in {"i5", "s"}
                 => last.res = "TraitError"
-RemoveRestores == last.op = "remove_trait" => Governing(cfg, st.itrait, name) = Governing(cfg, "none", name)
-LongestWins == \A p \in DOMAIN Wild(cfg) : HasPrefix(name, p) => Len(p) <= Len(LongestPrefix(cfg, name))
+RemoveRestores == last.op = "remove_trait" => st.itrait = "none" /\ Governing(cfg, st, name) = Governing(cfg, [last.pre EXCEPT !.itrait = "none"], name)
+LongestWins == \A p \in DOMAIN Wild(cfg, st.dyn) : HasPrefix(name, p) => Len(p) <= Len(LongestPrefix(cfg, st.dyn, name))
+\* a name first resolved under an admitting listener is governed by the admitted instance trait at once
+AdmitImmediate == last.op \in {"get", "set", "del"} /\ cfg.admit /\ ThroughWildcard(cfg, last.pre, name) /\ last.pre.cpol = "none"
+                  => st.itrait = "int" /\ (last.op = "set" /\ last.arg = "s" => last.res = "TraitError")
 =============================================================================
